@@ -92,6 +92,16 @@ type Header struct {
 	VarLits  []string           `json:"varlits"`
 	NNPos    []int              `json:"nnpos"`
 	Extra    string             `json:"extraname"`
+	Hosts    []Host             `json:"hosts"`
+	Cat      int                `json:"cat"`
+}
+
+// Host: the variable is used inside an argument literal: field(x: pre $x post)
+type Host struct {
+	Tix   int    `json:"tix"`
+	Field string `json:"field"`
+	Pre   string `json:"pre"`
+	Post  string `json:"post"`
 }
 
 type Val struct {
@@ -114,10 +124,13 @@ type Var struct {
 }
 
 type Case struct {
-	VM    string `json:"vm"`
-	Pos   string `json:"pos"`
-	Extra bool   `json:"extra"`
-	Vars  []Var  `json:"vars"`
+	VM       string `json:"vm"`
+	Pos      string `json:"pos"`
+	Host     int    `json:"host"`
+	Extra    bool   `json:"extra"`
+	DupV     Val    `json:"dupv"`
+	DupFirst bool   `json:"dupfirst"`
+	Vars     []Var  `json:"vars"`
 }
 
 type Line struct {
@@ -245,6 +258,11 @@ func (c *concretizer) render(v Val, out *bytes.Buffer) {
 		s := fmt.Sprintf("%d.5", 7000+c.k)
 		c.sentinels = append(c.sentinels, s)
 		out.WriteString(s)
+	case "N":
+		// a JSON number in a given spelling (1.0, 1e2, -0, 1e400 ...): written verbatim, not a sentinel
+		var sp string
+		_ = json.Unmarshal(v.V, &sp)
+		out.WriteString(sp)
 	case "s":
 		var cls string
 		_ = json.Unmarshal(v.V, &cls)
@@ -303,6 +321,11 @@ func buildRequest(h *Header, c *Case) (body []byte, query string, variables stri
 		if i > 0 {
 			alias = fmt.Sprintf("f%d: ", i)
 		}
+		if c.Pos == "host" {
+			hst := h.Hosts[c.Host-1]
+			sels = append(sels, fmt.Sprintf("%s%s(x: %s$%s%s)", alias, hst.Field, hst.Pre, v.Name, hst.Post))
+			continue
+		}
 		sels = append(sels, fmt.Sprintf("%s%s(x: $%s)", alias, field, v.Name))
 	}
 	query = fmt.Sprintf("query Q(%s) { %s }", strings.Join(defs, ", "), strings.Join(sels, " "))
@@ -315,6 +338,20 @@ func buildRequest(h *Header, c *Case) (body []byte, query string, variables stri
 	default:
 		vb.WriteString("{")
 		first := true
+		writeDup := func() {
+			if c.DupV.T == "x" || c.DupV.T == "" {
+				return
+			}
+			if !first {
+				vb.WriteString(",")
+			}
+			first = false
+			vb.WriteString(`"` + c.Vars[0].Name + `":`)
+			cz.render(c.DupV, &vb)
+		}
+		if c.DupFirst {
+			writeDup()
+		}
 		for _, v := range c.Vars {
 			if v.Val.T == "x" {
 				continue
@@ -325,6 +362,9 @@ func buildRequest(h *Header, c *Case) (body []byte, query string, variables stri
 			first = false
 			vb.WriteString(`"` + v.Name + `":`)
 			cz.render(v.Val, &vb)
+		}
+		if !c.DupFirst {
+			writeDup()
 		}
 		if c.Extra {
 			if !first {
@@ -544,7 +584,7 @@ func prepare(schema *graphql.Schema, body []byte) (p *prepared, stage string, er
 			return vr.Errors
 		}
 		stage = "normalize2"
-		result, err = req.Normalize(schema, astnormalization.WithExtractVariables())
+		result, err = req.Normalize(schema, astnormalization.WithExtractVariables(), astnormalization.WithRemoveUnusedVariables())
 		if err != nil {
 			return err
 		} else if !result.Successful {
